@@ -86,8 +86,9 @@ func (d *Driver) Close() {
 	d.cmd.Wait()
 }
 
-// infra reports an infrastructure failure (not a verdict) and exits 2.
+// infra reports an infrastructure failure (not a verdict) and exits 3 (2 is what the Go runtime exits with after a panic
+// or a fatal error of the code under test: that is a verdict).
 func infra(format string, args ...interface{}) {
 	fmt.Fprintf(os.Stderr, "INFRA: "+format+"\n", args...)
-	os.Exit(2)
+	os.Exit(3)
 }
